@@ -1,6 +1,9 @@
 package main
 
 import (
+	"encoding/hex"
+	"crypto/sha256"
+	"hash/fnv"
 	"fmt"
 	"go/types"
 	"os"
@@ -29,6 +32,8 @@ type Engine struct {
 	anonIDs   map[string]int
 	strLits   map[string]string
 	strOrder  []string
+	knownObligs map[string]bool // obligation names listed as known findings for the property being checked
+	usedTags, usedFields, usedAnons map[int]string
 	heapSorts map[string]string
 	outDir    string
 	timeoutS  int
@@ -54,38 +59,52 @@ func (e *Engine) heapSort(key string) string {
 	return e.heapSorts[key]
 }
 
+// stableID: identifiers that end up in SMT scripts are derived from the key itself, not from the order in which the
+// (parallel) verification first meets it, so that the same tree always yields the same scripts.
+func stableID(m map[string]int, used map[int]string, key string) int {
+	if id, ok := m[key]; ok {
+		return id
+	}
+	h := fnv.New32a()
+	h.Write([]byte(key))
+	id := int(h.Sum32()&0x3fffffff) + 1000
+	for {
+		if o, clash := used[id]; !clash || o == key {
+			break
+		}
+		id++ // deterministic unless two colliding keys race, which needs a 30-bit collision first
+	}
+	m[key] = id
+	used[id] = key
+	return id
+}
+
 func (e *Engine) typeTag(t types.Type) int {
 	k := typeKey(t)
 	e.mu.Lock()
 	defer e.mu.Unlock()
-	if id, ok := e.typeTags[k]; ok {
-		return id
+	if e.usedTags == nil {
+		e.usedTags, e.usedFields, e.usedAnons = map[int]string{}, map[int]string{}, map[int]string{}
 	}
-	id := len(e.typeTags) + 1
-	e.typeTags[k] = id
-	return id
+	return stableID(e.typeTags, e.usedTags, k)
 }
 
 func (e *Engine) fieldID(key string) int {
 	e.mu.Lock()
 	defer e.mu.Unlock()
-	if id, ok := e.fieldIDs[key]; ok {
-		return id
+	if e.usedTags == nil {
+		e.usedTags, e.usedFields, e.usedAnons = map[int]string{}, map[int]string{}, map[int]string{}
 	}
-	id := len(e.fieldIDs) + 1
-	e.fieldIDs[key] = id
-	return id
+	return stableID(e.fieldIDs, e.usedFields, key)
 }
 
 func (e *Engine) anonID(key string) int {
 	e.mu.Lock()
 	defer e.mu.Unlock()
-	if id, ok := e.anonIDs[key]; ok {
-		return id
+	if e.usedTags == nil {
+		e.usedTags, e.usedFields, e.usedAnons = map[int]string{}, map[int]string{}, map[int]string{}
 	}
-	id := len(e.anonIDs) + 1
-	e.anonIDs[key] = id
-	return id
+	return stableID(e.anonIDs, e.usedAnons, key)
 }
 
 func (e *Engine) strLit(s string) string {
@@ -98,22 +117,32 @@ func (e *Engine) strLit(s string) string {
 		e.strLits[s] = "str_empty"
 		return "str_empty"
 	}
-	n := fmt.Sprintf("strlit!%d", len(e.strLits))
+	h := sha256.Sum256([]byte(s))
+	n := "strlit!" + hex.EncodeToString(h[:6])
 	e.strLits[s] = n
 	e.strOrder = append(e.strOrder, s)
 	return n
 }
 
 // prelude emits the fixed declarations plus ghost functions and string literals.
-func (e *Engine) prelude() string {
+func (e *Engine) prelude(body string) string {
 	var b strings.Builder
 	b.WriteString(preludeBase)
 	e.mu.Lock()
-	var names []string
+	// only the string literals the query mentions, in name order
+	type lit struct{ n, s string }
+	var lits []lit
 	for _, s := range e.strOrder {
 		n := e.strLits[s]
-		names = append(names, n)
-		fmt.Fprintf(&b, "(declare-fun %s () Str) ; %q\n(assert (= (str_len %s) %d))\n", n, trunc(s, 60), n, len(s))
+		if strings.Contains(body, n) {
+			lits = append(lits, lit{n, s})
+		}
+	}
+	sort.Slice(lits, func(i, j int) bool { return lits[i].n < lits[j].n })
+	var names []string
+	for _, l := range lits {
+		names = append(names, l.n)
+		fmt.Fprintf(&b, "(declare-fun %s () Str) ; %q\n(assert (= (str_len %s) %d))\n", l.n, trunc(l.s, 60), l.n, len(l.s))
 	}
 	if len(names) > 0 {
 		fmt.Fprintf(&b, "(assert (distinct str_empty %s))\n", strings.Join(names, " "))
@@ -210,7 +239,13 @@ func loadEngine(repo, verifDir string, patterns []string) (*Engine, error) {
 		}
 	}
 	// contracts: repo copy first, mirror as fallback; plus shared externs from /verif/contracts
-	for path, tp := range e.tpkgs {
+	var tpaths []string
+	for path := range e.tpkgs {
+		tpaths = append(tpaths, path)
+	}
+	sort.Strings(tpaths) // fixed load order: the order of axioms in every script follows it
+	for _, path := range tpaths {
+		tp := e.tpkgs[path]
 		if len(tp.GoFiles) == 0 && len(tp.CompiledGoFiles) == 0 {
 			continue
 		}
